@@ -288,10 +288,16 @@ def add_offsets(rng, e, p=0.5, offs=(-2, -1, 1, 2, 3)):
 
 def gen_path_constraint(rng, case, opts):
     m = case["method"]
-    grids = opts.get("cgrids", ["control", "control", "integrator"])
+    grids = list(opts.get("cgrids", ["control", "control", "integrator"]))
+    if m["kind"] == "DC" and opts.get("roots", True):
+        grids.append("integrator_roots")
     grid = rng.choice(grids)
     kinds = ["x", "u", "p", "pc", "pp", "v", "vc", "vp", "t", "T", "t0"]
+    if case.get("algebraics"):
+        kinds.append("z")
     c = {"grid": grid, "include_first": rng.random() < 0.7, "include_last": rng.random() < 0.7}
+    if grid == "integrator_roots":
+        c["include_first"] = c["include_last"] = True
     if rng.random() < opts.get("p_cscale", 0.25):
         c["scale"] = jq(rng.choice([2, 4, Fraction(1, 2), 8]))
     form = rng.choice(["le", "le", "eq", "between", "ge", "vec"])
